@@ -1138,6 +1138,8 @@ def _helper_instance(helper, call, caller_names: set, is_method: bool):
         return None
     if any(isinstance(x, (ast.Yield, ast.YieldFrom, ast.Await, ast.Global, ast.Nonlocal)) for x in own_walk(helper)) or isinstance(helper, ast.AsyncFunctionDef):
         return None
+    if helper.decorator_list:
+        return None      # a decorated function is not its body (@cache, @staticmethod, ...)
     if any(isinstance(x, SCOPE) for x in own_walk(helper)):
         return None
     names = [x.arg for x in a.args]
@@ -1265,7 +1267,7 @@ def inline_helpers(tree: ast.Module, known_paths: set, functions) -> int:
                             # a reference to a one-expression helper: a lambda
                             hh = helpers[("fn", c.id)]
                             hb = [s for s in hh.body if not (isinstance(s, ast.Expr) and isinstance(s.value, ast.Constant))]
-                            if len(hb) == 1 and isinstance(hb[0], ast.Return) and hb[0].value is not None and not hh.args.defaults:
+                            if len(hb) == 1 and isinstance(hb[0], ast.Return) and hb[0].value is not None and not hh.args.defaults and not hh.decorator_list:
                                 lam = L(ast.Lambda(args=copy.deepcopy(hh.args), body=copy.deepcopy(hb[0].value)), c)
                                 for a_ in lam.args.args:
                                     a_.annotation = None
